@@ -179,6 +179,18 @@ CLAIMS['C10'] = (
     'crash model = process death between file-system calls (no power-failure reordering)',
     'DESIGN.md §6 C10')
 
+CLAIMS['C06'] = (
+    'exploration',
+    'exhaustive enumeration of build scripts (<=2 steps) x configuration product; pairwise differential between the Make build, the Ninja build (refninja) and compile_commands.json, observed through the recording stub toolchain',
+    'Every program of the typed enumeration (357 with <=2 steps) x 2 (quick) / 24 (thorough) configurations (library '
+    'mode, prefix with a space, global options, CFLAGS/CPPFLAGS/LDFLAGS/LDLIBS) is configured for both backends from '
+    'one script. Compared without expected values: buildable target sets (Make database vs manifest, helper nodes '
+    'contracted); per step the program, arguments, working directory and environment actually received; the set of '
+    're-executed steps after modifying each source file; and every compile_commands.json entry against the process '
+    'the backend started for that output (plus: every compile/link/copy step has an entry).',
+    'trusted: refninja; the documented Ninja-only colour flag is removed before comparing',
+    'DESIGN.md §6 C06')
+
 # --- more claims are appended above this line ---
 NOT_YET = 'check not built yet in this session (see DESIGN.md §10 build order); not claimed until it is'
 NOT_APPLICABLE = {}
